@@ -25,9 +25,12 @@ pub enum Regime {
     LogUniform,
     /// monotone runs up then down
     Monotone,
+    /// quiet walk near the band floor with rare "bad ticks" 1e6..3e7 times larger (high dynamic range:
+    /// residue left in running sums is large relative to the quiet values that follow)
+    BadTicks,
 }
 
-pub const BAND_REGIMES: [Regime; 10] = [
+pub const BAND_REGIMES: [Regime; 11] = [
     Regime::Walk,
     Regime::AltExtremes,
     Regime::Spikes,
@@ -38,6 +41,7 @@ pub const BAND_REGIMES: [Regime; 10] = [
     Regime::Uniform,
     Regime::Integer,
     Regime::LogUniform,
+    Regime::BadTicks,
 ];
 
 impl Regime {
@@ -121,6 +125,14 @@ impl BandGen {
             Regime::Uniform => r.uniform(lo, hi),
             Regime::Integer => lo * (1 + r.below(12)) as f64,
             Regime::LogUniform => lo * r.log_uniform(1.0, 1000.0),
+            Regime::BadTicks => {
+                self.cur = (self.cur * (1.0 + 0.01 * r.normal())).clamp(lo, 3.0 * lo);
+                if r.chance(0.004) {
+                    self.cur * r.log_uniform(1e6, 3e7)
+                } else {
+                    self.cur
+                }
+            }
             Regime::Monotone => {
                 if self.hold == 0 {
                     self.hold = 5 + r.below(300);
@@ -371,14 +383,21 @@ impl BarGen {
 
 /// bars whose five fields vary independently (not consistent OHLC)
 pub fn bars5(len: usize, rng: &mut Rng) -> Vec<Bar> {
-    let s = rng.log_uniform(1e-2, 1e5);
+    // mostly ordinary magnitudes, sometimes tiny or huge price units
+    let s = match rng.below(6) {
+        0 => rng.log_uniform(1e-20, 1e-12),
+        1 => rng.log_uniform(1e9, 1e15),
+        _ => rng.log_uniform(1e-2, 1e5),
+    };
     let signed = rng.chance(0.3);
     (0..len)
         .map(|_| {
             let mut f = [0.0; 5];
             for x in f.iter_mut() {
-                *x = match rng.below(8) {
-                    0 => (1 + rng.below(5)) as f64 * s, // ties across fields
+                *x = match rng.below(16) {
+                    0 | 1 => (1 + rng.below(5)) as f64 * s, // ties across fields
+                    2 => 0.0,                               // exact zeros ("no trade" bars)
+                    3 => -0.0,
                     _ => s * rng.log_uniform(0.01, 100.0),
                 };
                 if signed && rng.chance(0.3) {
